@@ -90,6 +90,9 @@ func propC07(c *Ctx, r *Report) {
 	r.Clauses = append(r.Clauses, "struct alignment (E31): the alignment a struct declaration's span is rounded up to - into which the members' @align attributes flow - is persisted by the lowerer and read by the StructType arm of every (alignment, size) function, so a struct nested in another struct or in an array is aligned by AlignOf(S) including @align")
 	c.runStructAlign(r, "layout.structalign", "wgsl/internal/lower")
 	r.floor("layout.structalign", 2)
+	r.Clauses = append(r.Clauses, attrsIndepClause)
+	c.runAttrsIndependent(r, "attrs.independent", inPkgs("wgsl"))
+	r.floor("attrs.independent", 2)
 	r.Clauses = append(r.Clauses, "column stride (E25): every call of a vector alignment factor table function that passes a field of a matrix type passes Rows (the stride between columns is the alignment of a column vector)")
 	c.runColStride(r, "layout.colstride", func(string) bool { return true })
 	r.floor("layout.colstride", 3)
